@@ -94,6 +94,9 @@ def _instances(tier, seed):
         sc = SCENARIOS[i]
         yield {"kind": "scenario", "index": i, "name": sc[0] + " (list annotations)", "tset": sc[1], "N": sc[2] + 1,
                "placement": [[k, list(vs)] for k, vs in sc[3]], "annotations": "list"}
+    sc = SCENARIOS[0]
+    yield {"kind": "scenario", "index": 0, "name": sc[0] + " (numpy-array annotations)", "tset": sc[1], "N": sc[2] + 1,
+           "placement": [[k, list(vs)] for k, vs in sc[3]], "annotations": "numpy"}
     for tset, N, minm, maxm in PLAN[tier]:
         tops = netgen.TOPOLOGY_SETS[tset]
         batch = []
@@ -134,7 +137,28 @@ def orbit_labelled_diamonds():
     return (tuple(nodes), tuple(sorted(edges))), names
 
 
-CUSTOM_STATES = {"orbit-labelled-diamonds": orbit_labelled_diamonds}
+def large_int_labels(tset, N, placement):
+    """A scenario whose vertices are called 1000, 1001, ...: every occurrence of a label in the node list and in the
+    edge list is a separate int object (equal, not identical), as in any network with more than 257 vertices."""
+    def make():
+        state, names = initial_state(tset, N, placement)
+        return mcmc.relabel_state(state, lambda v: int(str(1000 + v))), names
+    return make
+
+
+CUSTOM_STATES = {
+    "orbit-labelled-diamonds": orbit_labelled_diamonds,
+    # 2-cliques forming hubs and leaves (motifs share vertices), and triangles sharing a vertex; one isolated vertex
+    "large-int-labels:hubs-and-leaves": large_int_labels(
+        "c2", 9, [[0, [1, 0]], [0, [1, 3]], [0, [1, 4]], [0, [2, 5]], [0, [2, 6]], [0, [6, 7]]]),
+    "large-int-labels:shared-vertex-triangles": large_int_labels(
+        "c2+c3", 12, [[1, [0, 1, 2]], [1, [2, 3, 4]], [1, [5, 6, 7]], [0, [5, 8]], [0, [6, 9]], [0, [7, 10]]]),
+}
+
+
+def _np_array(jd):
+    import numpy as np
+    return np.array(jd)
 
 
 def initial_state(tset, N, placement):
@@ -204,7 +228,7 @@ def run_scenario(inst, tier):
     state, names = initial_state(inst["tset"], inst["N"], inst["placement"])
     target = mcmc.make_target(state, names, "uniform")
     d = 0
-    mcmc.ANNOTATION_TYPE[0] = list if inst.get("annotations") == "list" else tuple
+    mcmc.ANNOTATION_TYPE[0] = {"list": list, "numpy": _np_array}.get(inst.get("annotations"), tuple)
     try:
         seen, graph, problems, stats = mcmc.closure(state, names, target, d, cap=SCENARIO_CAP[tier])
     finally:
@@ -236,6 +260,24 @@ def run_scenario(inst, tier):
             report(res, desc, ro.problems, "C11", f"edge insertion order {order!r} ")
             if set(ro.successors) != set(graph.get(state, [])):
                 res.count("scenarios_whose_successor_set_depends_on_insertion_order")
+    # the same initial network handed to a rewiring object that has already rewired another network over the same
+    # vertex labels (network / ejks replaced through the public setters)
+    if len(seen) >= 2 and not [p for p in problems if p[1] != mcmc.KNOWN_CROSSED] \
+            and inst.get("annotations") is None:
+        mcmc.REUSED_OBJECT[0] = True
+        try:
+            ru = mcmc.explore_step(state, state, mcmc.motif_shapes(state), names, target, 0)
+        finally:
+            mcmc.REUSED_OBJECT[0] = False
+        res.executions += ru.leaves
+        res.revalidated += ru.rechecked
+        report(res, desc, ru.problems, "C11", "second rewire() of a reused object ")
+        res.flags.add("reused-object")
+        if set(ru.successors) != set(graph.get(state, [])):
+            res.violation("C11:reused-object-behaves-differently",
+                          f"scenario {inst['name']}: the accepted-swap successors of the second rewire() on a reused "
+                          f"object differ from those of a fresh object ({len(ru.successors)} vs "
+                          f"{len(graph.get(state, []))})", desc)
     if len(seen) >= 2:
         res.nontrivial.add(inst["name"])
         res.flags.add("has-successor")
